@@ -97,7 +97,10 @@ func (rg *rootGeneratorSimple) generateIter() func(yield func(*Node, error) bool
 			stack.dfs(currentNode)
 		}
 
-		yield(root, rg.scanner.Err()) // 最後のブロックのrootを返却
+		// 最後のブロックのrootを返却 (empty or blank-only input has no root: nothing to yield)
+		if err := rg.scanner.Err(); err != nil || root != nil {
+			yield(root, err)
+		}
 	}
 }
 
@@ -177,6 +180,10 @@ func (rg *rootGeneratorPipeline) worker(ctx context.Context, wg *sync.WaitGroup,
 			if err := sc.Err(); err != nil {
 				errc <- err
 				return
+			}
+			if root == nil {
+				// a block of blank lines only (e.g. before the first root, or empty input)
+				continue
 			}
 			select {
 			case <-ctx.Done():
